@@ -8,6 +8,7 @@ or written before the `buffered >= counter` guard, and the insufficient-data exi
 is moved into the socket. Does NOT decide equality of decoded sequences over all partitions."""
 from ..sym import Sym, show, walk_expr, PathExplosion
 from ..common import trait_impls, short, strip_casts, len_base, coroutine_of
+from ..pathq import default_inline
 
 EXPLANATION = __doc__
 NOT_DECIDED = "equality of the decoded item sequence across all partitions of the byte stream (value-level, dynamic)"
@@ -79,7 +80,8 @@ def analyse_decoder(f, rep, dec, self_ty):
     for v in senum["variants"]:
         ops = tuple(("sym", "hdr") for _ in v["fields"])
         seed = {"%s.%s" % (SELF, sname): ("agg", "adt", senum_path, v["name"], ops), "%s.%s" % (SELF, cname): W}
-        sym = Sym(f, max_visits=2, stop_blocks=heads, stop_calls=lambda fn: fn["path"] == dec.path or (fn.get("resolved") or {}).get("path") == dec.path)
+        sym = Sym(f, max_visits=2, stop_blocks=heads, inline=default_inline(f), inline_depth=3,
+                  stop_calls=lambda fn: fn["path"] == dec.path or (fn.get("resolved") or {}).get("path") == dec.path)
         try:
             paths = sym.paths(dec, seed=seed)
         except PathExplosion as e:
@@ -107,7 +109,8 @@ def analyse_decoder(f, rep, dec, self_ty):
                         consumed.append(strip_casts(ev.args[1]))
                     elif n in ("split", "clear", "take", "copy_to_bytes", "get_uint", "get_int"):
                         consumed.append(("unk", n))
-                if ev.kind == "store" and ev.place.startswith(SELF + "."):
+                if ev.kind == "store" and ev.extra and ev.extra.get("k") == "assign" and ev.extra["place"]["p"] and ev.extra["place"]["p"][0]["k"] == "deref" and \
+                        len(ev.extra["place"]["p"]) >= 2 and ev.extra["place"]["p"][1]["k"] == "field" and ev.extra["place"]["p"][1].get("name") in (sname, cname, aname):
                     stores.append(ev)
             insufficient = None
             if guard:
@@ -163,8 +166,8 @@ def analyse_decoder(f, rep, dec, self_ty):
                 continue       # rejected before consuming anything: the connection is dropped with the error
             consumed_by.setdefault(key_state, set()).add(total)
             # outgoing transition
-            st_out = [s for s in stores if s.place == "%s.%s" % (SELF, sname)]
-            c_out = [s for s in stores if s.place == "%s.%s" % (SELF, cname)]
+            st_out = [s for s in stores if s.place.endswith(")." + sname)]
+            c_out = [s for s in stores if s.place.endswith(")." + cname)]
             if st_out:
                 so = st_out[-1].value
                 sv = so[3] if so[0] == "agg" else show(so)
@@ -178,7 +181,7 @@ def analyse_decoder(f, rep, dec, self_ty):
     init = None
     for b in ctor:
         for p in Sym(f).paths(b):
-            if p.end == "return" and p.ret and p.ret[0] == "agg" and p.ret[1] == "adt":
+            if p.end == "return" and p.ret and p.ret[0] == "agg" and p.ret[1] == "adt" and (p.ret[2] or "").endswith(self_ty.split("::")[-1]) and len(p.ret[4]) == len(fields):
                 names = [x["name"] for x in fields]
                 vals = dict(zip(names, p.ret[4]))
                 if sname in vals:
@@ -199,7 +202,7 @@ def analyse_decoder(f, rep, dec, self_ty):
         rep.check(ok, "R02.1", "R02.1|%s|state|%s" % (dec.path, st_name),
                   "state %s: counter set on incoming edges %s, bytes consumed by its arm %s" % (st_name, sorted(map(str, inc)), sorted(map(str, con))), dec.loc())
     # R02.3 accumulator discipline over whole-function paths
-    sym = Sym(f, max_visits=3, stop_calls=lambda fn: fn["path"] == dec.path)
+    sym = Sym(f, max_visits=3, stop_calls=lambda fn: fn["path"] == dec.path, inline=default_inline(f), inline_depth=3)
     paths = sym.paths(dec)
     rep.count("decoder_paths", len(paths))
     bad_exit = 0
